@@ -39,7 +39,9 @@ LMAX = 120
 FIXED_L = [1, 2, 3, 4, 5, 10, 20, 40, 80, 120]
 CHUNK = 16
 SHRINK_BUDGET = 120
-SHRINK_PER_CHUNK = 3
+SHRINK_PER_CLASS = 4
+ROBUST = ('html-renderer-drops-line-break-in-image-alt', 'child-budget-zero-disables-wrap',
+          'code-span-delimiter-at-line-start-becomes-fence')
 MAX_FAILURES = int(os.environ.get('VERIF_MAXFAIL', '400'))
 
 PREFIX = re.compile(r'(?:> ?| +|[-+*] +|\d{1,9}[.)] +)*')
@@ -201,11 +203,45 @@ def sample_ls(key, k):
     return sorted(set(rng.sample(range(1, LMAX + 1), k)) | {1, 2, 3, 4})
 
 
+def failure(x, L, contract, cls, observed, expected, name, gen):
+    return {'key': '%s|%r|L=%d' % (contract, x, L), 'contract': contract, 'class': cls,
+            'input': {'markdown': x, 'L': L, 'source': name}, 'observed': observed, 'expected': expected,
+            'gen': gen,
+            'replay': ('from mistletoe import Document, HtmlRenderer; '
+                       'from mistletoe.markdown_renderer import MarkdownRenderer\n'
+                       'x = %r\nwith MarkdownRenderer(max_line_length=%d) as m: out = m.render(Document(x))\n'
+                       'with MarkdownRenderer(max_line_length=%d) as m: again = m.render(Document(out))\n'
+                       'with HtmlRenderer() as h: hx = h.render(Document(x))\n'
+                       'with HtmlRenderer() as h: ho = h.render(Document(out))\n'
+                       'print(repr(out)); print(" ".join(hx.split()) == " ".join(ho.split()), again == out, '
+                       'max(map(len, out.split(chr(10)))))' % (x, L, L))}
+
+
+def shrink_one(f):
+    """minimise one failing (document, L) structurally; keeps contract and L"""
+    kind, ident = f['gen']
+    L, contract = f['input']['L'], f['contract']
+    tree, x = mdgen.gen(ident, kind)
+
+    def fails(t):
+        r2 = Ref(t)
+        return r2.ok and r2.pre and any(b[0] == contract for b in check(r2, L)[0])
+    _, mx, used = mdgen.shrink(tree, fails, SHRINK_BUDGET, normal=kind == 'reflow')
+    mref = Ref(mx)
+    b2, mout = check(mref, L)
+    again = [b for b in b2 if b[0] == contract]
+    if not again or mx == x:
+        return f
+    g = failure(mx, L, contract, classify(mref, L, contract, again[0][1], mout), again[0][1], again[0][2],
+                f['input']['source'], None)
+    g['shrunk_from_chars'] = len(x)
+    return g
+
+
 def work(chunk):
     res = {'evaluations': 0, 'contract_evaluations': 0, 'failures': [], 'samples': [],
            'nontrivial': 0, 'failing_cases': 0, 'excluded': 0, 'docs': 0, 'maxdepth': 0,
-           'min_budget': None, 'shrink_evals': 0}
-    shrunk = set()      # (contract, class) already minimised in this work item
+           }
     for case in chunk:
         kind, ident, ls = case[0], case[1], case[2]
         if kind == 'stack':
@@ -237,39 +273,8 @@ def work(chunk):
                 res['nontrivial'] += 1
             for contract, observed, expected in bad:
                 res['failing_cases'] += 1
-                mx, mout, mref = x, out, ref
-                cls = classify(ref, L, contract, observed, out)
-                if tree is not None and (contract, cls) not in shrunk and len(shrunk) < SHRINK_PER_CHUNK:
-                    shrunk.add((contract, cls))
-
-                    def fails(t, contract=contract, L=L):
-                        r2 = Ref(t)
-                        if not r2.ok or not r2.pre:
-                            return False
-                        return any(b[0] == contract for b in check(r2, L)[0])
-                    _, mx, used = mdgen.shrink(tree, fails, SHRINK_BUDGET, normal=kind == 'reflow')
-                    res['shrink_evals'] += used
-                    mref = Ref(mx)
-                    b2, mout = check(mref, L)
-                    again = [b for b in b2 if b[0] == contract]
-                    if again:
-                        observed, expected = again[0][1], again[0][2]
-                        cls = classify(mref, L, contract, observed, mout)
-                    else:
-                        mx, mout, mref = x, out, ref
-                res['failures'].append({
-                    'key': '%s|%r|L=%d' % (contract, mx, L), 'contract': contract,
-                    'class': cls,
-                    'input': {'markdown': mx, 'L': L, 'source': name},
-                    'observed': observed, 'expected': expected,
-                    'replay': ('from mistletoe import Document, HtmlRenderer; '
-                               'from mistletoe.markdown_renderer import MarkdownRenderer\n'
-                               'x = %r\nwith MarkdownRenderer(max_line_length=%d) as m: out = m.render(Document(x))\n'
-                               'with MarkdownRenderer(max_line_length=%d) as m: again = m.render(Document(out))\n'
-                               'with HtmlRenderer() as h: hx = h.render(Document(x))\n'
-                               'with HtmlRenderer() as h: ho = h.render(Document(out))\n'
-                               'print(repr(out)); print(" ".join(hx.split()) == " ".join(ho.split()), again == out, '
-                               'max(map(len, out.split(chr(10)))))' % (mx, L, L))})
+                res['failures'].append(failure(x, L, contract, classify(ref, L, contract, observed, out),
+                                               observed, expected, name, (kind, ident) if tree is not None else None))
     return res
 
 
@@ -296,7 +301,7 @@ def run(tier, seed, workers):
     chunks = [cases[i:i + CHUNK] for i in range(0, len(cases), CHUNK)]
     parts = pool_map(work, chunks, workers)
     out = {k: 0 for k in ('evaluations', 'contract_evaluations', 'failing_cases', 'excluded', 'docs',
-                          'nontrivial', 'shrink_evals')}
+                          'nontrivial')}
     failures, samples, maxdepth = {}, [], 0
     for p in parts:
         for k in out:
@@ -306,8 +311,22 @@ def run(tier, seed, workers):
             samples.extend(p['samples'][:1])
         for f in p['failures']:
             failures.setdefault(f['key'], f)
-    fl = sorted(failures.values(), key=lambda f: (len(f['input']['markdown']), f['input']['markdown'],
-                                                  f['input']['L'] or 0, f['key']))
+    order = lambda f: (len(f['input']['markdown']), f['input']['markdown'], f['input']['L'] or 0, f['key'])  # noqa: E731
+    fl = sorted(failures.values(), key=order)
+    # minimise the smallest generated failures of every (contract, class) -- bounded work
+    todo, per = [], {}
+    for f in fl:
+        c = (f['contract'], f['class'])
+        per[c] = per.get(c, 0) + 1
+        if f.get('gen') and per[c] <= (SHRINK_PER_CLASS if f['class'] in ROBUST else 4 * SHRINK_PER_CLASS):
+            todo.append(f)
+    for f, g in zip(todo, pool_map(shrink_one, todo, workers)):
+        if g is not f:
+            failures.pop(f['key'])
+            failures.setdefault(g['key'], g)
+    fl = sorted(failures.values(), key=order)
+    for f in fl:
+        f.pop('gen', None)
     classes = {}
     for f in fl:
         c = '%s|%s' % (f['contract'], f['class'])
